@@ -215,11 +215,18 @@ func probeStream() []byte {
 // stays within the bound. It returns the parse result of the first pass.
 func checkStream(stream []byte, big bool) (parseResult, *vh.Failure) {
 	guard := treeUnsafe()
+	before := allocCounter()
 	res := parseStream(stream, guard)
+	suspicious := allocCounter()-before > allocBound(len(stream))
 	if f := panicFailure(res.Panic, "parsing", stream); f != nil || res.Panic != nil {
 		return res, f
 	}
-	if big || res.MaxN >= 1<<16 {
+	if suspicious {
+		// every stream is watched with the cheap counter (an allocation by an announced length
+		// need not go through the queue's Bytes); what it flags is measured properly below
+		vh.Label("pkg:alloc-flagged-by-counter")
+	}
+	if big || suspicious || res.MaxN >= 1<<16 {
 		var again parseResult
 		delta := measure(func() { again = parseStream(stream, guard) })
 		vh.Label("pkg:alloc-measured")
